@@ -1,5 +1,5 @@
 (** addrsyntax() and the front end of addrparse(): what is accepted, what is handed back. *)
-From Qv Require Import Common.Bytes Gen.GenAddr Model.Addr Spec.AddrSpec
+From Qv Require Import Common.Bytes Gen.GenAddr Model.Addr Spec.AddrSpec Spec.AddrGrammar
   Proofs.AddrTables Proofs.CStrLemmas Proofs.DomainProofs Proofs.LocalProofs Proofs.ParseaddrProofs.
 
 Local Arguments N.eqb : simpl never.
@@ -8,13 +8,13 @@ Ltac as_consts := unfold AS_ROUTE_MAX, AS_RC_EMPTY, AS_RC_POSTMASTER, AS_MIN, AS
 (** "@d1,@d2,...,@dk," *)
 Inductive route_pre : bytes -> Prop :=
 | rp_nil : route_pre []
-| rp_cons d r : fqdn d -> route_pre r -> route_pre (cAT :: d ++ cCOMMA :: r).
+| rp_cons d r : fqdn_strict d -> route_pre r -> route_pre (cAT :: d ++ cCOMMA :: r).
 
-Lemma route_pre_snoc ys d : route_pre ys -> fqdn d -> route (ys ++ cAT :: d ++ [cCOLON]).
+Lemma route_pre_snoc ys d : route_pre ys -> fqdn_strict d -> route_x (ys ++ cAT :: d ++ [cCOLON]).
 Proof.
   induction 1 as [|d0 r Hd0 _ IH]; intros Hd.
-  - apply rt_last. exact Hd.
-  - cbn [app]. rewrite <- app_assoc. cbn [app]. apply rt_more; [exact Hd0|]. apply IH. exact Hd.
+  - apply rx_last. exact Hd.
+  - cbn [app]. rewrite <- app_assoc. cbn [app]. apply rx_more; [exact Hd0|]. apply IH. exact Hd.
 Qed.
 
 Lemma route_pre_app a b : route_pre a -> route_pre b -> route_pre (a ++ b).
@@ -83,7 +83,7 @@ Proof.
   destruct Hpost as (ys & m2 & yl & Hy & Hrp & Hyl & Hhdl & Hmem & Hm2 & Hf).
   exists ((AT :: d) ++ COMMA :: ys), ((AT :: d) ++ NUL :: m2), yl.
   split; [rewrite Hy; rewrite <- app_assoc; reflexivity|].
-  split; [cbn [app]; apply rp_cons; [apply fqdn_strict_fqdn; now apply fqdn_strict_b_iff|exact Hrp]|].
+  split; [cbn [app]; apply rp_cons; [now apply fqdn_strict_b_iff|exact Hrp]|].
   split; [exact Hyl|]. split; [exact Hhdl|].
   split; [rewrite Hmem; unfold m1'; rewrite <- !app_assoc; reflexivity|].
   split; [rewrite !app_length; cbn [length]; ulia|].
@@ -96,10 +96,25 @@ Variable pton4 pton6 : bytes -> bool.
 (** what addrsyntax() hands back for the line [s] (bytes before the terminator) *)
 Definition as_post (s : bytes) (flags : Z) (r : asres) : Prop :=
   addrsyntax_post pton4 pton6 s flags (as_rc r) (as_addr r) (as_more r).
+(** the same with the exact grammar *)
+Definition as_post_x (s : bytes) (flags : Z) (r : asres) : Prop :=
+  addrsyntax_post_x pton4 pton6 s flags (as_rc r) (as_addr r) (as_more r).
+
+Lemma route_x_weaken rt : route_x rt -> route rt.
+Proof. induction 1; [apply rt_last|apply rt_more]; auto using fqdn_strict_fqdn. Qed.
+
+Lemma as_post_x_weaken s flags r : as_post_x s flags r -> as_post s flags r.
+Proof.
+  intros [H|(rt & a & post & E & Ha & Hrt & Had & Hm & Hc)]; [now left|]. right.
+  exists rt, a, post. split; [exact E|]. split; [exact Ha|]. split.
+  { destruct Hrt as [->|(F & R & L & _)]; [now left|right]. auto using route_x_weaken. }
+  split; [exact Had|]. split; [exact Hm|].
+  destruct Hc as [Hc|[[E3 Hc]|[E4 Hc]]]; [now left|right; left|right; right]; split; auto using mailbox_x_weaken.
+Qed.
 
 (** from the search for the closing angle bracket on: the line is rt ++ y, [m1] is what became of rt *)
 Lemma as_tail rest flags rt m1 y : ~ In NUL y -> length m1 = length rt ->
-  (rt = [] \/ (flags = 1%Z /\ route rt /\ length rt <= 256)) ->
+  (rt = [] \/ (flags = 1%Z /\ route_x rt /\ length rt <= 256 /\ ~ In cCOMMA y)) ->
   let mem := m1 ++ y ++ NUL :: rest in
   let f := length m1 in
   exists r,
@@ -123,7 +138,7 @@ Lemma as_tail rest flags rt m1 y : ~ In NUL y -> length m1 = length rt ->
               else Ok (mk_asres (Z.of_nat x)
                          (Some (map to_lower (firstn len s) ++ skipn len s)) more mem')
       end) = Ok r
-    /\ as_post (rt ++ y) flags r /\ length (as_mem r) = length mem.
+    /\ as_post_x (rt ++ y) flags r /\ length (as_mem r) = length mem.
 Proof.
   intros Hy Hm1 Hrt mem f. unfold mem, f. rewrite skipn_app_exact.
   destruct (strchr_spec y rest GT (length m1) Hy ltac:(discriminate)) as [(a & post & -> & Ha & Hr)|(Hn & Hr)];
@@ -156,7 +171,7 @@ Proof.
       assert (S1 : skipn (length m1) ((m1 ++ a) ++ NUL :: post ++ NUL :: rest) = a ++ NUL :: (post ++ NUL :: rest)).
       { rewrite <- app_assoc. apply skipn_app_exact. }
       rewrite S1.
-      destruct (parseaddr_spec pton4 pton6 a (post ++ NUL :: rest) Hna) as (rc & Hrc & Hp). rewrite Hrc. cbn [bind andb].
+      destruct (parseaddr_spec_x pton4 pton6 a (post ++ NUL :: rest) Hna) as (rc & Hrc & Hp). rewrite Hrc. cbn [bind andb].
       as_consts. destruct (Nat.ltb_spec rc 3) as [Hlt|Hge].
       { eexists. split; [reflexivity|]. split; [now left|]. cbn [as_fail as_mem]. rewrite !app_length. reflexivity. }
       rewrite cstr_run by assumption. cbn [bind].
@@ -170,12 +185,12 @@ Proof.
     assert (S1 : skipn (length m1) ((m1 ++ a) ++ NUL :: post ++ NUL :: rest) = a ++ NUL :: (post ++ NUL :: rest)).
     { rewrite <- app_assoc. apply skipn_app_exact. }
     rewrite S1.
-    assert (Hfin : forall rc, 3 <= rc -> pa_post pton4 pton6 a rc ->
+    assert (Hfin : forall rc, 3 <= rc -> pa_post_x pton4 pton6 a rc ->
        exists r, (do s <- cstr (a ++ NUL :: post ++ NUL :: rest);
                   if Nat.ltb (length s + 1) (length a) then Crash 40
                   else Ok (mk_asres (Z.of_nat rc) (Some (map to_lower (firstn (length a) s) ++ skipn (length a) s)) more
                              ((m1 ++ a) ++ NUL :: post ++ NUL :: rest))) = Ok r
-         /\ as_post (rt ++ a ++ GT :: post) flags r
+         /\ as_post_x (rt ++ a ++ GT :: post) flags r
          /\ length (as_mem r) = length ((m1 ++ a) ++ GT :: post ++ NUL :: rest)).
     { intros rc Hge Hp. rewrite cstr_run by assumption. cbn [bind].
       destruct (Nat.ltb_spec (length a + 1) (length a)) as [Hbad|_]; [ulia|].
@@ -197,19 +212,19 @@ Proof.
         split; [reflexivity|]. split; [exact Ha|]. split; [exact Hrt|].
         split; [rewrite firstn_all, skipn_all, app_nil_r; reflexivity|]. split; [exact Hmore2|].
         left. auto.
-      * destruct (parseaddr_spec pton4 pton6 a (post ++ NUL :: rest) Hna) as (rc & Hrc & Hp). rewrite Hrc. cbn [bind].
+      * destruct (parseaddr_spec_x pton4 pton6 a (post ++ NUL :: rest) Hna) as (rc & Hrc & Hp). rewrite Hrc. cbn [bind].
         destruct (Nat.ltb_spec rc 3) as [Hlt|Hge].
         { eexists. split; [reflexivity|]. split; [now left|]. cbn [as_fail as_mem]. rewrite !app_length. reflexivity. }
         apply Hfin; assumption.
-    + destruct (parseaddr_spec pton4 pton6 a (post ++ NUL :: rest) Hna) as (rc & Hrc & Hp). rewrite Hrc. cbn [bind andb].
+    + destruct (parseaddr_spec_x pton4 pton6 a (post ++ NUL :: rest) Hna) as (rc & Hrc & Hp). rewrite Hrc. cbn [bind andb].
       as_consts. destruct (Nat.ltb_spec rc 3) as [Hlt|Hge].
       { eexists. split; [reflexivity|]. split; [now left|]. cbn [as_fail as_mem]. rewrite !app_length. reflexivity. }
       apply Hfin; assumption.
 Qed.
 
-Theorem addrsyntax_spec s rest flags : ~ In NUL s ->
+Theorem addrsyntax_spec_x s rest flags : ~ In NUL s ->
   exists r, addrsyntax pton4 pton6 (s ++ NUL :: rest) flags = Ok r
-    /\ as_post s flags r /\ length (as_mem r) = length (s ++ NUL :: rest).
+    /\ as_post_x s flags r /\ length (as_mem r) = length (s ++ NUL :: rest).
 Proof.
   intros Hs. unfold addrsyntax.
   assert (R0 : rd (s ++ NUL :: rest) 0 = Ok (hd NUL (s ++ [NUL]))) by (destruct s; reflexivity).
@@ -258,16 +273,25 @@ Proof.
   { unfold m1. rewrite (app_length _ [NUL]). reflexivity. }
   assert (L3 : length m1 = length rt).
   { unfold m1, rt. repeat (rewrite ?app_length; cbn [length app]). ulia. }
-  assert (Hroute : rt = [] \/ (flags = 1%Z /\ route rt /\ length rt <= 256)).
-  { right. split; [exact Hf1|]. split.
+  assert (Hroute : rt = [] \/ (flags = 1%Z /\ route_x rt /\ length rt <= 256 /\ ~ In cCOMMA z2)).
+  { right. split; [exact Hf1|]. split; [|split].
     - unfold rt. cbn [app]. apply route_pre_snoc; [exact Hrp|].
-      apply fqdn_strict_fqdn. now apply fqdn_strict_b_iff.
-    - rewrite <- L3, <- L2. exact Hshort. }
+      now apply fqdn_strict_b_iff.
+    - rewrite <- L3, <- L2. exact Hshort.
+    - intros X. apply Hyl. cbn [app]. right. apply in_or_app. right. now right. }
   rewrite E2 in *. rewrite L2.
   pose proof (as_tail rest flags rt m1 z2 Hnz2 L3 Hroute) as H. cbn zeta in H.
   destruct H as (r & Hr1 & Hr2 & Hr3). exists r. split; [exact Hr1|]. split; [|rewrite Hr3; exact Hlen2].
   replace s with (rt ++ z2); [exact Hr2|].
   rewrite Hy. unfold rt. rewrite <- !app_assoc. reflexivity.
+Qed.
+
+Theorem addrsyntax_spec s rest flags : ~ In NUL s ->
+  exists r, addrsyntax pton4 pton6 (s ++ NUL :: rest) flags = Ok r
+    /\ as_post s flags r /\ length (as_mem r) = length (s ++ NUL :: rest).
+Proof.
+  intros Hs. destruct (addrsyntax_spec_x s rest flags Hs) as (r & H & Hp & Hl). exists r.
+  split; [exact H|]. split; [now apply as_post_x_weaken|exact Hl].
 Qed.
 
 (** the address addrparse() goes on with after the syntax check *)
